@@ -1,1 +1,336 @@
 // Suites that need access to items private to this module (feature ipa-verif, test builds only).
+//
+// ---------------------------------------------------------------------------------------------
+// C11 — duplicate detection through the real sharded input path: `reshard_aad` (private module
+// `reshard_tag`) with the picker used by `Query::execute`, then `UniqueTagValidator` on what each
+// shard owns.  `include!`d as `crate::query::runner::ipa_verif_hook`.
+//
+//   c11.path <n> <tags of shard 0>/<tags of shard 1>/…     (decimal u128 tags, `-` = none)
+//        -> per shard `ok` | `dup:<counter>`, `/`-separated (identical on the three helpers,
+//           otherwise `mixed`)
+// ---------------------------------------------------------------------------------------------
+pub mod c11_path {
+    use std::sync::Arc;
+
+    use futures::stream;
+
+    use super::super::reshard_tag::reshard_aad;
+    use crate::{
+        error::Error,
+        ff::boolean_array::BA8,
+        ipa_verif::{c11::tag_of, proto::*},
+        protocol::context::ShardedContext,
+        report::hybrid::{UniqueTag, UniqueTagValidator},
+        secret_sharing::replicated::semi_honest::AdditiveShare as Replicated,
+        sharding::ShardConfiguration,
+        test_fixture::{Runner, TestWorld, TestWorldConfig, WithShards},
+    };
+
+    async fn run_n<const N: usize>(tags: Vec<Vec<u128>>) -> String {
+        let world: TestWorld<WithShards<N>> = TestWorld::with_shards(TestWorldConfig::default());
+        let tags = Arc::new(tags);
+        let r: Vec<[String; 3]> = world
+            .semi_honest(Vec::<BA8>::new().into_iter(), |ctx, _input: Vec<Replicated<BA8>>| {
+                let tags = Arc::clone(&tags);
+                async move {
+                    let me = usize::from(ctx.shard_id());
+                    let mine: Vec<Result<(u32, UniqueTag), Error>> = tags[me]
+                        .iter()
+                        .enumerate()
+                        .map(|(i, t)| Ok((u32::try_from(i).unwrap(), tag_of(*t))))
+                        .collect();
+                    let n_mine = mine.len();
+                    // exactly the call made by query/runner/hybrid.rs: Query::execute
+                    let res = reshard_aad(ctx, stream::iter(mine), |ctx, _, tag: &UniqueTag| {
+                        tag.shard_picker(ctx.shard_count())
+                    })
+                    .await;
+                    match res {
+                        Err(e) => format!("err:{}", canon(&format!("{e:?}"))),
+                        Ok((data, resharded_tags)) => {
+                            // the reports themselves stay where they were submitted
+                            assert_eq!(data, (0..u32::try_from(n_mine).unwrap()).collect::<Vec<_>>());
+                            let mut v = UniqueTagValidator::new(resharded_tags.len());
+                            match v.check_duplicates(&resharded_tags) {
+                                Ok(()) => "ok".to_string(),
+                                Err(Error::DuplicateBytes(k)) => format!("dup:{k}"),
+                                Err(e) => format!("err:{}", canon(&format!("{e:?}"))),
+                            }
+                        }
+                    }
+                }
+            })
+            .await;
+        r.into_iter()
+            .map(|[a, b, c]| if a == b && b == c { a } else { "mixed".to_string() })
+            .collect::<Vec<_>>()
+            .join("/")
+    }
+
+    pub fn exec(req: &str) -> String {
+        let t: Vec<&str> = req.split(' ').collect();
+        assert_eq!(t[0], "c11.path");
+        let n: usize = t[1].parse().unwrap();
+        let tags: Vec<Vec<u128>> = t[2].split('/').map(|l| parse_nat_list::<u128>(l)).collect();
+        assert_eq!(tags.len(), n);
+        block_on_timeout(20, async move {
+            match n {
+                1 => run_n::<1>(tags).await,
+                2 => run_n::<2>(tags).await,
+                3 => run_n::<3>(tags).await,
+                4 => run_n::<4>(tags).await,
+                5 => run_n::<5>(tags).await,
+                _ => panic!("harness: unsupported shard count {n}"),
+            }
+        })
+        .unwrap_or_else(|e| e)
+    }
+
+    fn show(tags: &[Vec<u128>]) -> String {
+        tags.iter().map(|l| nat_list(l)).collect::<Vec<_>>().join("/")
+    }
+
+    pub fn generate(rng: &mut Rng, thorough: bool) -> Vec<String> {
+        let mut v = Vec::new();
+        for n in 1..=5usize {
+            // no reports at all; one report; the same report twice on one shard; on two shards
+            v.push(format!("c11.path {n} {}", show(&vec![vec![]; n])));
+            let mut one = vec![vec![]; n];
+            one[n - 1].push(u128::MAX);
+            v.push(format!("c11.path {n} {}", show(&one)));
+            // a duplicate pair at every (source shard a, source shard b) with distinct filler around it
+            for a in 0..n {
+                for b in a..n {
+                    for dup_tag in [0u128, (n as u128) - 1, n as u128, u128::MAX, (1u128 << 64) + 3] {
+                        let mut t: Vec<Vec<u128>> = (0..n).map(|s| (0..3 + s as u128).map(|k| 1000 + 100 * s as u128 + k).collect()).collect();
+                        let pa = rng.usize_below(t[a].len() + 1);
+                        t[a].insert(pa, dup_tag);
+                        let pb = rng.usize_below(t[b].len() + 1);
+                        t[b].insert(pb, dup_tag);
+                        v.push(format!("c11.path {n} {}", show(&t)));
+                    }
+                }
+            }
+            // pairwise distinct inputs of various sizes, including tags that differ only in high bits
+            for size in [1usize, 4, 9] {
+                let t: Vec<Vec<u128>> = (0..n).map(|s| (0..size).map(|k| ((k as u128) << 64) + (s as u128) * 7919 + (k as u128)).collect()).collect();
+                v.push(format!("c11.path {n} {}", show(&t)));
+            }
+        }
+        for _ in 0..(if thorough { 1500 } else { 150 }) {
+            let n = 1 + rng.usize_below(5);
+            let dom = 1 + rng.below(60);
+            let wide = rng.bool();
+            let t: Vec<Vec<u128>> = (0..n)
+                .map(|_| {
+                    let len = if rng.below(5) == 0 { 0 } else { rng.usize_below(13) };
+                    (0..len)
+                        .map(|_| if wide && rng.below(4) != 0 { rng.next_u128() } else { u128::from(rng.below(dom)) })
+                        .collect()
+                })
+                .collect();
+            v.push(format!("c11.path {n} {}", show(&t)));
+        }
+        v
+    }
+}
+
+#[test]
+fn verif_c11_path() {
+    crate::ipa_verif::proto::run_suite("c11_path", c11_path::generate, c11_path::exec);
+}
+
+// ---------------------------------------------------------------------------------------------
+// C11 end to end: the real `Query::execute` (HPKE decryption, reshard_aad, validator, and — for
+// accepted inputs — the whole attribution protocol) under TestWorld with shards.
+//
+//   c11.e2e <n> <report indices of shard 0>/<… shard 1>/…
+//        report i is one encrypted hybrid report (the same ciphertext wherever index i occurs, so a
+//        repeated index is the same encrypted report submitted twice). Every shard gets >= 8 reports
+//        (finding F8: an empty shard makes the protocol wait forever).
+//        -> `accepted` (every shard of every helper returned Ok)
+//         | `rejected:<routing>`: some shard returned DuplicateBytes; routing = `on-picker-shard` if on
+//           every helper exactly the shards `shard_picker(tag of a repeated report)` failed
+//         | other text for anything else (timeouts, other errors)
+// ---------------------------------------------------------------------------------------------
+pub mod c11_e2e {
+    use std::{collections::BTreeSet, sync::Arc, time::Duration};
+
+    use bytes::Bytes;
+    use futures::{StreamExt, stream::FuturesUnordered};
+    use rand::{SeedableRng, rngs::StdRng};
+
+    use super::super::hybrid::Query as HybridQuery;
+    use crate::{
+        error::Error,
+        ff::boolean_array::{BA3, BA8, BA32},
+        helpers::{BodyStream, query::{HybridQueryParams, QuerySize}},
+        hpke::{KeyPair, KeyRegistry},
+        ipa_verif::proto::*,
+        report::hybrid::{DEFAULT_KEY_ID, EncryptedHybridReport, HybridReport, UniqueTag},
+        secret_sharing::IntoShares,
+        sharding::ShardIndex,
+        test_fixture::{TestWorld, TestWorldConfig, WithShards, hybrid::TestHybridRecord},
+    };
+
+    fn records(count: usize) -> Vec<TestHybridRecord> {
+        (0..count)
+            .map(|i| {
+                if i % 3 == 2 {
+                    TestHybridRecord::TestConversion {
+                        match_key: 5000 + (i as u64) / 3,
+                        value: 1 + (i as u32) % 7,
+                        key_id: DEFAULT_KEY_ID,
+                        conversion_site_domain: "meta.com".to_string(),
+                        timestamp: 100 + i as u64,
+                        epsilon: 0.0,
+                        sensitivity: 0.0,
+                    }
+                } else {
+                    TestHybridRecord::TestImpression {
+                        match_key: 5000 + (i as u64) / 3 + if i % 3 == 1 { 100_000 } else { 0 },
+                        breakdown_key: (i as u32) % 8,
+                        key_id: DEFAULT_KEY_ID,
+                    }
+                }
+            })
+            .collect()
+    }
+
+    async fn run_n<const N: usize>(lists: Vec<Vec<usize>>) -> String {
+        let count = lists.iter().flatten().max().map_or(0, |m| m + 1);
+        let mut rng = StdRng::seed_from_u64(4242);
+        let key_registry = Arc::new(KeyRegistry::<KeyPair>::random(1, &mut rng));
+        let shares: [Vec<HybridReport<BA8, BA3>>; 3] = records(count).into_iter().share();
+        // one encrypted segment (length prefix + ciphertext) per report per helper
+        let mut segs: [Vec<Vec<u8>>; 3] = Default::default();
+        let mut picks: [Vec<u32>; 3] = Default::default();
+        for (h, hs) in shares.into_iter().enumerate() {
+            for share in hs {
+                let mut buf = Vec::new();
+                share.delimited_encrypt_to(DEFAULT_KEY_ID, key_registry.as_ref(), &mut rng, &mut buf).unwrap();
+                let enc = EncryptedHybridReport::<BA8, BA3>::from_bytes(Bytes::copy_from_slice(&buf[2..])).unwrap();
+                let tag = UniqueTag::from_unique_bytes(&enc);
+                picks[h].push(u32::from(tag.shard_picker(ShardIndex::from(N as u32))));
+                segs[h].push(buf);
+            }
+        }
+        // which report indices are submitted more than once, and where their tags are routed
+        let mut seen = BTreeSet::new();
+        let mut repeated = BTreeSet::new();
+        for i in lists.iter().flatten() {
+            if !seen.insert(*i) {
+                repeated.insert(*i);
+            }
+        }
+        let world = TestWorld::<WithShards<N>>::with_shards(TestWorldConfig::default());
+        let contexts = world.malicious_contexts();
+        let mut futs = FuturesUnordered::new();
+        for (h, ctxs) in contexts.into_iter().enumerate() {
+            for (s, ctx) in ctxs.into_iter().enumerate() {
+                let buffer: Vec<u8> = lists[s].iter().flat_map(|i| segs[h][*i].iter().copied()).collect();
+                let size = QuerySize::try_from(lists[s].len()).unwrap();
+                let kr = Arc::clone(&key_registry);
+                futs.push(async move {
+                    let params = HybridQueryParams { with_dp: 0, ..Default::default() };
+                    let r = HybridQuery::<_, BA32, KeyRegistry<KeyPair>>::new(params, kr)
+                        .execute(ctx, size, BodyStream::from(buffer))
+                        .await;
+                    (h, s, r.map(|v| v.len()))
+                });
+            }
+        }
+        let want: [BTreeSet<u32>; 3] = std::array::from_fn(|h| repeated.iter().map(|i| picks[h][*i]).collect());
+        let expect_reject = !repeated.is_empty();
+        let mut dup: [BTreeSet<u32>; 3] = Default::default();
+        let mut oks = 0usize;
+        let mut other: Vec<String> = Vec::new();
+        // generous: the machine may be heavily loaded; nothing below depends on speed
+        let mut deadline = tokio::time::Instant::now() + Duration::from_secs(if expect_reject { 150 } else { 400 });
+        let total = 3 * N;
+        let mut done = 0usize;
+        let mut grace = false;
+        while done < total {
+            match tokio::time::timeout_at(deadline, futs.next()).await {
+                Ok(Some((h, s, r))) => {
+                    done += 1;
+                    match r {
+                        Ok(_) => oks += 1,
+                        Err(Error::DuplicateBytes(_)) => {
+                            dup[h].insert(s as u32);
+                        }
+                        Err(e) => other.push(format!("h{h}s{s}:{}", canon(&format!("{e:?}")))),
+                    }
+                    // the peers of an erring shard never finish (they wait in the protocol): once
+                    // every shard that must fail has failed, allow a short grace period for
+                    // anything unexpected and stop
+                    if expect_reject && !grace && (0..3).all(|h| want[h].is_subset(&dup[h])) {
+                        grace = true;
+                        deadline = tokio::time::Instant::now() + Duration::from_secs(2);
+                    }
+                }
+                Ok(None) => break,
+                Err(_) => break,
+            }
+        }
+        if !other.is_empty() {
+            return format!("error:{}", other.join(";"));
+        }
+        if dup.iter().all(BTreeSet::is_empty) {
+            return if oks == total { "accepted".into() } else { format!("timeout:{oks}-of-{total}-finished") };
+        }
+        let routing_ok = (0..3).all(|h| dup[h] == want[h]);
+        format!("rejected:{}", if routing_ok { "on-picker-shard" } else { "elsewhere" })
+    }
+
+    pub fn exec(req: &str) -> String {
+        let t: Vec<&str> = req.split(' ').collect();
+        assert_eq!(t[0], "c11.e2e");
+        let n: usize = t[1].parse().unwrap();
+        let lists: Vec<Vec<usize>> = t[2].split('/').map(|l| parse_nat_list::<usize>(l)).collect();
+        assert_eq!(lists.len(), n);
+        block_on_timeout(420, async move {
+            match n {
+                1 => run_n::<1>(lists).await,
+                2 => run_n::<2>(lists).await,
+                3 => run_n::<3>(lists).await,
+                4 => run_n::<4>(lists).await,
+                5 => run_n::<5>(lists).await,
+                _ => panic!("harness: unsupported shard count {n}"),
+            }
+        })
+        .unwrap_or_else(|e| e)
+    }
+
+    pub fn generate(rng: &mut Rng, thorough: bool) -> Vec<String> {
+        let mut v = Vec::new();
+        let show = |l: &Vec<Vec<usize>>| l.iter().map(|x| nat_list(x)).collect::<Vec<_>>().join("/");
+        let base = |n: usize, per: usize| -> Vec<Vec<usize>> { (0..n).map(|s| (s * per..(s + 1) * per).collect()).collect() };
+        // distinct reports are accepted (full protocol run: slow, thorough tier only)
+        if thorough {
+            v.push(format!("c11.e2e 2 {}", show(&base(2, 8))));
+        }
+        // the same report twice: on one shard, on two different shards
+        let cases: Vec<(usize, usize, usize)> = if thorough {
+            (1..=5).flat_map(|n| (0..n).flat_map(move |a| (a..n).map(move |b| (n, a, b)))).collect()
+        } else {
+            vec![(1, 0, 0), (2, 0, 1), (3, 2, 2), (3, 0, 2)]
+        };
+        for (n, a, b) in cases {
+            let mut l = base(n, 8);
+            let victim = l[a][rng.usize_below(8)];
+            let pos = rng.usize_below(l[b].len() + 1);
+            l[b].insert(pos, victim);
+            v.push(format!("c11.e2e {n} {}", show(&l)));
+        }
+        if thorough {
+            v.push(format!("c11.e2e 1 {}", show(&base(1, 9))));
+        }
+        v
+    }
+}
+
+#[test]
+fn verif_c11_e2e() {
+    crate::ipa_verif::proto::run_suite("c11_e2e", c11_e2e::generate, c11_e2e::exec);
+}
